@@ -46,8 +46,8 @@ import (
 // Destroy calls are recorded; destroyed instances stay listed for a short while (as C14's driver:
 // without this the pool drops a worker within one sync interval of its destruction and an SSH
 // handshake still in progress dereferences the missing worker in Pool.reportSSHConnected, which
-// kills the process; notes/C14.md observation O2, here finding F15b — it still happens when a handshake
-// takes longer than the instance lingers).
+// kills the process; notes/C14.md observation O2, here finding F15b, fixed in /repo 847719d; the lingering is
+// kept because real clouds do it).
 
 type verifC15Quota struct{ error }
 
